@@ -236,6 +236,11 @@ def float_cases(tier):
     for t, nd in (('int64', 'Int64'), ('uint64', 'Uint64')):
         C.append(T('conv_%s_to_float32' % t, '//go:noinline\nfunc toF32_%s(x %s) float32 { return float32(x) }\n' % (t, t), 'VerifOutF64("a", float64(toF32_%s(Nondet%s(0))))' % (t, nd),
                    lambda inp: [('true', [('a', [F64('((_ to_fp 11 53) RNE ((_ to_fp 8 24) RNE ((_ int2bv 66) in_0)))')])], 'normal')]))
+    # an integer result converted to a float is never -0 (JavaScript's % yields -0 for a negative dividend and a zero remainder)
+    for t, nd in (('int', 'Int'), ('int8', 'Int8'), ('int32', 'Int32')):
+        C.append(T('rem_%s_sign_of_zero' % t, '//go:noinline\nfunc remz_%s(x, y %s) %s { return x %% y }\n' % (t, t, t),
+                   'x := Nondet%s(0)\ny := Nondet%s(1)\nVerifAssume(y != 0)\nVerifOutF64("r", float64(remz_%s(x, y)))' % (nd, nd, t),
+                   lambda inp: [('true', [('r', [F64('((_ to_fp 11 53) RNE ((_ int2bv 66) (trem in_0 in_1)))')])], 'normal')]))
     # float -> integer, for values the target type can hold (anything else is implementation-defined)
     def toint(t, lo, hi):
         s_, w = INT_TYPES[t]
@@ -274,7 +279,7 @@ def main():
     if tier == 'quick':
         # conversions between integers and floats need fp.to_sbv / to_real queries that z3 does not close within the quick budget: thorough tier only
         fl = [c for c in fl if c.tag.startswith(('f64_', 'f32_')) or c.tag in ('conv_float32_float64', 'conv_float64_to_int64', 'conv_float64_to_uint64', 'conv_float64_to_int32', 'conv_float64_to_uint32',
-                                                                               'conv_int32_to_float', 'conv_uint32_to_float')]
+                                                                               'conv_int32_to_float', 'conv_uint32_to_float') or c.tag.startswith('rem_')]
     cases = build_cases(tier, rnd) + fl
     only = os.environ.get('VERIF_ONLY')
     if only:
